@@ -85,7 +85,7 @@ class ServiceAccessPoint(object):
             return insertable
 
     def remove_socket(self, socket):
-        assert socket.addr == self.addr
+        # socket.addr may be None if the link was just terminated
         socket.close()
         with self.llc.lock:
             try:
